@@ -18,7 +18,8 @@ import sys
 sys.path.insert(0, os.path.dirname(os.path.dirname(os.path.abspath(__file__))))
 import common  # noqa: E402
 
-S0 = {'foo': 'padding:10', 'tab': 'margin:1'}
+S0 = {'foo': 'padding:10', 'tab': 'margin:1', 'Tab': 'margin-top:2'}       # two keys that differ in case only: their order in the converted list must not depend on how the table was written down
+S0R = dict(reversed(list(S0.items())))                                   # the same table (equal as a dict) written in the other order
 S1 = {'foo': 'padding:10', 'tab': 'border:1'}
 MS1 = {'bad': 'x)', 'good': 'section.sn', 'sig': 'p.sig{-- ${who}}'}
 OBJS = ['m1', 'm2', 'm3', 'm4', 'm5', 'm6', 'm7', 'm8', 'm9', 'm10', 'm11', 's1', 's2', 's3', 's4', 's5', 's6', 's7', 's8', 's9', 's10']
@@ -46,9 +47,9 @@ def make_objects(emmet):
         's9': {'type': 'stylesheet', 'options': {'stylesheet.unitAliases': {'v': 'vw', 'r': 'rpx'}}},
         's10': {'type': 'stylesheet', 'snippets': {'gtx': 'grid-template: repeat(2, ${1'}, 'options': {'stylesheet.intUnit': 'px'}, 'cache': k1},
         's1': {'type': 'stylesheet', 'snippets': dict(S0), 'options': {'stylesheet.intUnit': 'pt'}, 'cache': k1},
-        's2': {'type': 'stylesheet', 'snippets': dict(S0), 'options': {'stylesheet.intUnit': 'px'}, 'cache': k1},
+        's2': {'type': 'stylesheet', 'snippets': dict(S0R), 'options': {'stylesheet.intUnit': 'px'}, 'cache': k1},
         's3': {'type': 'stylesheet', 'snippets': dict(S1), 'options': {'stylesheet.intUnit': 'pt'}, 'cache': k1},
-        's4': {'type': 'stylesheet', 'snippets': dict(S0), 'options': {'stylesheet.intUnit': 'px'}},
+        's4': {'type': 'stylesheet', 'snippets': dict(S0R), 'options': {'stylesheet.intUnit': 'px'}},
         's5': emmet.Config({'type': 'stylesheet', 'snippets': dict(S0), 'options': {'stylesheet.intUnit': 'pt'}, 'cache': k2}),
         's6': {'type': 'stylesheet', 'syntax': 'scss', 'options': {'stylesheet.intUnit': 'px'}, 'cache': k1},
         's7': {'type': 'stylesheet', 'snippets': dict(S0), 'options': {'stylesheet.intUnit': 'pt'}, 'cache': k1, 'context': {'name': '@@section'}},
